@@ -22,6 +22,7 @@ func init() {
 		out := fs.String("out", "", "results JSON")
 		cfgs := fs.String("cfgs", "P256/1", "comma separated kind/encoding")
 		step := fs.Int("sweep", 64, "bit sweep: 1 = every bit, n = every n-th bit on average, 0 = off")
+		extcfgs := fs.String("extcfgs", "", "comma separated kind/encoding for which only the extension matrix is run")
 		seed := fs.Int64("seed", 1, "seed")
 		_ = fs.Parse(args)
 		data, err := os.ReadFile(*in)
@@ -70,6 +71,21 @@ func init() {
 					}
 					o.Sweeps = append(o.Sweeps, s)
 				}
+			}
+			o.Extend = append(o.Extend, env.ExtendMatrix()...)
+			env.Close()
+		}
+		for _, c := range strings.Split(*extcfgs, ",") {
+			if c == "" || strings.Contains(","+*cfgs+",", ","+c+",") {
+				continue
+			}
+			parts := strings.Split(c, "/")
+			var enc int
+			fmt.Sscan(parts[1], &enc)
+			env, err := vcheck.NewEnv(world.KeyKind(parts[0]), protocol.KeyEncoding(enc), 3)
+			if err != nil {
+				fmt.Fprintln(os.Stderr, "env", c, err)
+				return 2
 			}
 			o.Extend = append(o.Extend, env.ExtendMatrix()...)
 			env.Close()
